@@ -364,8 +364,9 @@ def trace_report(r):
     return missing, fails
 
 
-class Hang(Exception):
-    """The code under test did not return within the time limit."""
+class Hang(BaseException):
+    """The code under test did not return within the time limit.  (Not an Exception: a loop under test that catches
+    Exception around its body must not be able to swallow the watchdog; the alarm also repeats until the limit is left.)"""
 
 
 class time_limit:
@@ -382,7 +383,7 @@ class time_limit:
             def handler(signum, frame):
                 raise Hang()
             self.old = signal.signal(signal.SIGALRM, handler)
-            signal.setitimer(signal.ITIMER_REAL, self.seconds)
+            signal.setitimer(signal.ITIMER_REAL, self.seconds, 0.5)
         return self
 
     def __exit__(self, *exc):
